@@ -151,7 +151,10 @@ def run(tier, seed):
                 "periods x list order x tolerance (0 .. infinity) x criterion; non-trivial = behaviours in which the "
                 "stopper fires before the last epoch or the rule is evaluated at least once; replayed into the real "
                 "fit() with scripted MetricEvaluator / ObservableEvaluator values (python float and numpy.float64)")
-    res = tc.mc(cfg_space(tier), maxinj=0, invariants=["TypeOK", "FirstHit", "Complete", "OnSchedule"], timeout=3400)
+    # (thorough tier: TLC checks every behaviour, a uniform sample is decoded for the replay - see check_c17)
+    smp = (lambda n, *f: None) if tier == "quick" else (lambda n, *f: (n, seed) + f)
+    res = tc.mc(cfg_space(tier), maxinj=0, invariants=["TypeOK", "FirstHit", "Complete", "OnSchedule"], timeout=3400,
+                export_sample=smp(40000))
     chk.add_tlc(res, "Train.tla early stopping")
     if res.violation:
         chk.violation("spec:" + str(res.violation), dict(tlc=res.raw[-4000:]))
@@ -182,7 +185,8 @@ def run(tier, seed):
         warnings.simplefilter("ignore")       # numpy inf/nan warnings for zero references are expected
         tc.replay_behaviours(chk, behs, seed, nontrivial=nontriv, post=post, opts=opts)
     # -- two runs on the same evaluator / stopper objects
-    res2 = tc.mc(cfg_space_two(tier), maxinj=0, invariants=["TypeOK", "FirstHit", "Complete", "OnSchedule"], timeout=3400)
+    res2 = tc.mc(cfg_space_two(tier), maxinj=0, invariants=["TypeOK", "FirstHit", "Complete", "OnSchedule"], timeout=3400,
+                 export_sample=smp(16000))
     chk.add_tlc(res2, "Train.tla early stopping, second fit() on the same evaluator and stopper")
     if res2.violation:
         chk.violation("spec:" + str(res2.violation), dict(tlc=res2.raw[-4000:]))
@@ -198,7 +202,8 @@ def run(tier, seed):
                 chk.nontriv(("two-runs", n))
     chk.extra["two_run_behaviours_replayed"] = len(two)
     # -- two stoppers in one list
-    res3 = tc.mc(cfg_space_pair(tier), maxinj=0, invariants=["TypeOK", "FirstHit", "Complete", "OnSchedule"], timeout=3400)
+    res3 = tc.mc(cfg_space_pair(tier), maxinj=0, invariants=["TypeOK", "FirstHit", "Complete", "OnSchedule"], timeout=3400,
+                 export_sample=smp(6000))
     chk.add_tlc(res3, "Train.tla early stopping, two stoppers on one evaluator")
     if res3.violation:
         chk.violation("spec:" + str(res3.violation), dict(tlc=res3.raw[-4000:]))
